@@ -109,15 +109,73 @@ theorem digest_resend_is_final (s : Stack) (a : Nat) (ok : Bool) (re : TOut) (r 
           | resp h2 =>
             right
             have hrb : digestResend Fixes.all s a (forget Fixes.all r) (.resp h2) =
-                rebind s ({ forget Fixes.all r with http := some h2, tag := 2 * a + 1 } : Resp) := by
+                rebind s a ({ forget Fixes.all r with http := some h2, tag := 2 * a + 1 } : Resp) := by
               simp [digestResend, Fixes.all]
             rw [hrb] at hr'
             obtain ⟨k1, k2⟩ := autoRead_keeps s ({ forget Fixes.all r with http := some h2, tag := 2 * a + 1 } : Resp)
             unfold rebind at hr'
             simp only at hr'
-            split at hr' <;>
-              (simp only [StepOut.respO, Option.some.injEq] at hr'; subst hr'
-               simp only [parseResp]
-               exact ⟨k2, h2, rfl, k1⟩)
+            have fin : ∀ x : Resp, x.tag = (parseResp s (autoRead s ({ forget Fixes.all r with http := some h2, tag := 2 * a + 1 } : Resp)).1).resp.tag →
+                x.http = (parseResp s (autoRead s ({ forget Fixes.all r with http := some h2, tag := 2 * a + 1 } : Resp)).1).resp.http →
+                x.tag = 2 * a + 1 ∧ ∃ h, TOut.resp h2 = TOut.resp h ∧ x.http = some h := by
+              intro x hx1 hx2
+              simp only [parseResp] at hx1 hx2
+              exact ⟨hx1.trans k2, h2, rfl, hx2.trans k1⟩
+            split at hr'
+            · simp only [StepOut.respO, Option.some.injEq] at hr'; subst hr'; exact fin _ rfl rfl
+            · split at hr'
+              · split at hr'
+                · simp only [StepOut.respO, Option.some.injEq] at hr'; subst hr'; exact fin _ rfl rfl
+                · simp only [StepOut.respO, Option.some.injEq] at hr'; subst hr'; exact fin _ rfl rfl
+              · simp only [StepOut.respO, Option.some.injEq] at hr'; subst hr'; exact fin _ rfl rfl
+
+/-! ### `SetOutput` / `SetOutputFile` across a digest re-send (fixes/C18-3) -/
+
+/-- The challenge a digest middleware is going to answer is not what the caller asked to save:
+`handleDownload` leaves it alone. -/
+theorem challenge_is_not_saved (s : Stack) (a : Nat) (r : Resp) (h : Http) (hh : r.http = some h)
+    (hfix : s.fixDigestSave = true) (hch : digestChallenged s a h = true) : download s a r = (r, []) := by
+  unfold download; simp [hh, hfix, hch]
+
+/-- **digest_resend_saves_final** — when the repaired digest middleware has re-sent the request
+and goes on without error, the output holds the body of the re-sent exchange. -/
+theorem digest_resend_saves_final (s : Stack) (a : Nat) (r1 r' : Resp) (evs : List Ev)
+    (hfix : s.fixDigestSave = true) (hsave : s.save = true) (hh : r1.http ≠ none)
+    (h : rebind s a r1 = .cont (some r') evs) : r'.savedOf = some r1.tag := by
+  obtain ⟨k1, k2⟩ := autoRead_keeps s r1
+  unfold rebind at h
+  simp only at h
+  split at h
+  · cases h
+  · rw [if_pos hfix] at h
+    split at h
+    · cases h
+    · rename_i hse
+      simp only [StepOut.cont.injEq, Option.some.injEq] at h
+      obtain ⟨h, _⟩ := h
+      subst h
+      have hhttp : (parseResp s (autoRead s r1).1).resp.http = r1.http := by simp only [parseResp]; exact k1
+      have htag : (parseResp s (autoRead s r1).1).resp.tag = r1.tag := by simp only [parseResp]; exact k2
+      have hsv : saved s a (parseResp s (autoRead s r1).1).resp = true := by
+        unfold saved
+        rw [hse, hsave, hhttp]
+        cases hx : r1.http with
+        | none => exact absurd hx hh
+        | some _ => rfl
+      simp only [hsv, if_true, htag]
+
+def exDigestSave (fixed : Bool) : Stack :=
+  { save := true, fixDigestSave := fixed,
+    transport := [.resp (exHttp 401 true)],
+    reqResp := [[.digest true (.resp (exHttp 200 true))]] }
+
+/-- repaired: the answer to the authorized request (exchange 1) is what gets saved … -/
+example : (callResp (run Fixes.all (exDigestSave true))).map (fun r => (r.tag, r.err, r.savedOf)) = some (1, none, some 1) := by
+  decide
+
+/-- … as found, the output holds the 401 challenge (exchange 0) although the call returns the 200. -/
+theorem as_found_digest_saves_challenge :
+    (callResp (run Fixes.all (exDigestSave false))).map (fun r => (r.tag, r.err, r.savedOf)) = some (1, none, some 0) := by
+  decide
 
 end Req.Props.C18
